@@ -68,6 +68,7 @@ def op_strategy(client, idx):
         st.tuples(st.just('len')),
         st.tuples(st.just('list')),
         st.tuples(st.just('close')),  # closes the caller's connection; the next call reopens it transparently
+        st.tuples(st.just('open')),  # a further handle is constructed on the directory (and closed again) while the others work
     )
 
 
@@ -160,6 +161,10 @@ def do_op(cache, op):
             return ('ok', cache.decr(op[1], op[2], retry=True))
         if name == 'close':
             return ('ok', cache.close())
+        if name == 'open':
+            shards = getattr(cache, '_count', None)
+            extra = type(cache)(cache.directory, timeout=0) if shards is None else type(cache)(cache.directory, shards=shards, timeout=0)
+            return ('ok', extra.close())
         if name == 'len':
             return ('ok', len(cache))
         if name == 'list':
@@ -180,7 +185,7 @@ def model_apply(state, call):
     k = op[1] if len(op) > 1 else None
     if name == 'setbad':
         return state, res[0] == 'exc'  # rejected: no effect
-    if name == 'close':
+    if name in ('close', 'open'):
         return state, res == ('ok', None)
     if name == 'set':
         d[k] = (op[2], False)
